@@ -7,6 +7,7 @@
 -/
 import GherkinVerif.Model.Stream
 import GherkinVerif.Model.Md
+import GherkinVerif.Model.Formatter
 import GherkinVerif.Gen.ParserTable
 import GherkinVerif.Gen.Dialects
 import GherkinVerif.Gen.Grammar
@@ -17,6 +18,8 @@ import Driver.GenAst
 import GherkinVerif.Spec.LayoutChecks
 import GherkinVerif.Spec.LayoutChecks2
 import GherkinVerif.Spec.LayoutChecks3
+import GherkinVerif.Spec.LayoutChecks4
+import GherkinVerif.Spec.LayoutChecks5
 open GV
 
 namespace Driver
@@ -49,17 +52,18 @@ def arg (as : List (List Nat)) (i : Nat) : List Nat := as.getD i []
 def flag (as : List (List Nat)) (i : Nat) : Bool := (arg as i).head? == some 1
 def num (as : List (List Nat)) (i : Nat) : Nat := (arg as i).headD 0
 
-/-- token listing as TokenFormatterBuilder prints it -/
-def formatToken (t : Token) : Str :=
-  match t.line with
-  | none => lit "EOF"
-  | some _ =>
-    [40] ++ natToStr t.lineNo ++ [58] ++ natToStr (t.col.getD 0) ++ [41] ++
-    lit ((t.mtype.map Kind.name).getD "None") ++ [58] ++
-    (match t.keyword with
-     | some kw => if kw.isEmpty then [] else [40] ++ lit ((t.ktype.map KType.name).getD "") ++ [41] ++ kw
-     | none => []) ++ [47] ++ (t.text.getD []) ++ [47] ++
-    joinWith [44] (t.items.map fun it => natToStr it.1 ++ [58] ++ it.2)
+/-- reply of op `tokens`: as `outcomeJ`, for a run with the token-formatter builder
+    (`formatToken` is the Model's: GherkinVerif/Model/Formatter.lean) -/
+def outcomeFJ (o : OutcomeF) (ctx : CtxF) : J :=
+  let base : List (String × J) := match o with
+    | .ok s => [("ok", .str s)]
+    | .rejected es comp => [("errors", .arr (es.map PErr.toJ)), ("composite", .bool comp)]
+    | .crash w => [("crash", .str (lit w))]
+    | .fuel => [("crash", .str (lit "fuel"))]
+  .obj (base ++ [("calls", .num ctx.calls), ("dialectAfter", .str ctx.μ.name),
+                 ("builds", .arr (ctx.builds.map fun t => .str (formatToken t))),
+                 ("buildLines", .arr (ctx.builds.map fun t => .num t.lineNo)),
+                 ("reads", .arr (ctx.reads.map J.num)), ("unexpected", .arr (ctx.unexpected.map J.num))])
 
 def handle (op : String) (as : List (List Nat)) : J :=
   match op with
@@ -73,6 +77,13 @@ def handle (op : String) (as : List (List Nat)) : J :=
       outcomeJ o ctx [("builds", .arr (ctx.builds.map fun t => .str (formatToken t))),
                       ("buildLines", .arr (ctx.builds.map fun t => .num t.lineNo)),
                       ("reads", .arr (ctx.reads.map J.num)), ("unexpected", .arr (ctx.unexpected.map J.num))]
+  | "tokens" =>
+    -- stop | default dialect | src : Parser(TokenFormatterBuilder()).parse — the token listing (Model/Formatter.lean)
+    match MState.init D (arg as 1) with
+    | none => .obj [("crash", .str (lit "no such default dialect"))]
+    | some μ =>
+      let (o, ctx) := parseWithF D T (flag as 0) μ (arg as 2)
+      outcomeFJ o ctx
   | "parsepure" =>
     -- stop | default dialect | ids | src : the queue-free parse (Spec/PureParse.lean), same reply shape as `parse`
     match MState.init D (arg as 1) with
@@ -97,7 +108,11 @@ def handle (op : String) (as : List (List Nat)) : J :=
             ("indent", .bool (!src'.isEmpty && Spec.indentOkB D T (flag as 0) μ 0 src' src)),
             ("indent2", .bool (!src'.isEmpty && Spec.indentOk2B D T (flag as 0) μ 0 src' src)),
             ("comment", .arr (if c.isEmpty then [] else
-              ((List.range (n + 1)).filter fun k => Spec.commentLineOk2B D T (flag as 0) μ 0 src k c).map J.num))]
+              ((List.range (n + 1)).filter fun k => Spec.commentLineOk3B D T (flag as 0) μ 0 src k c).map J.num)),
+            ("comment2", .arr (if c.isEmpty then [] else
+              ((List.range (n + 1)).filter fun k => Spec.commentLineOk2B D T (flag as 0) μ 0 src k c).map J.num)),
+            -- a sixth argument: a variant in which doc strings move as blocks (Props/C16Doc7.lean)
+            ("indent3", .bool (!(arg as 5).isEmpty && Spec.indentBlockOkB D T (flag as 0) μ 0 (arg as 5) src))]
   | "textaccepts" =>
     -- default dialect | src : text-level acceptor (Spec/TextLevel.lean) and the intrinsic kinds along the run
     match MState.init D (arg as 0) with
@@ -127,6 +142,10 @@ def handle (op : String) (as : List (List Nat)) : J :=
     let rec pairs : List (List Nat) → List (Str × Str)
       | u :: d :: rest => (u, d) :: pairs rest
       | _ => []
+    -- a fourth flag switches the stream's parser to stop-at-first-error mode
+    if o.getD 3 0 == 1 then
+      .arr ((streamAllMode D T true opts (pairs (as.drop 1)) 0).map fun es => .arr (es.map Envelope.toJ))
+    else
     .arr ((streamAll D T opts (pairs (as.drop 1)) 0).map fun es => .arr (es.map Envelope.toJ))
   | "cells" => .arr ((tableCells (arg as 0)).map fun c => .obj [("column", .num c.1), ("text", .str c.2)])
   | "tags" =>
